@@ -17,11 +17,11 @@ from contracts import rbm as R, unitary as U
 
 LEVEL = "proof"
 MANIFEST = {
-    "engine": "qv-native",
+    "engine": "qv-native+qv-gen",
     "category": "proof",
     "technique": "contracts on every gradient routine, bodies executed on symbolic parameters and compared with exact symbolic derivatives of the callees' contract values; grouping logic proved with opaque per-row stubs; obligations by exp-polynomial normal form and z3",
-    "text": "effective_energy_gradient (both RBMs, reduce on/off, 1-D), gamma_grad, pi_grad, am_grads/ph_grads and rotated_gradient of the complex and mixed states are each executed on symbolic parameters and must equal, entry by entry in named_parameters() order, the exact derivative of the effective energy / gamma / pi / minus log rotated Born probability (mixed: minus dP/(P+1e-8)). gradient()'s grouping by basis (np.unique, masks, all-Z fast path, 1-D form) is proved with the per-group callees stubbed by opaque per-row terms: any multiset of basis strings, row order and split gives the sum of per-row terms; positive_phase_gradients is that sum over B; compute_exact_gradients is positive phase minus the exact model average. The NLL lemma is discharged end to end for small sizes, and every public gradient method of PositiveWaveFunction must be callable and agree.",
-    "note": "floats as reals; the 1e-8 regulariser is the exact rational of the float; shapes enumerated (quick nv<=2, thorough nv<=3 with all 3^n strings and seeded nv=4 strings for the grouping part); values unbounded",
+    "text": "effective_energy_gradient (both RBMs, reduce on/off, 1-D), gamma_grad, pi_grad, am_grads/ph_grads and rotated_gradient of the complex and mixed states are each executed on symbolic parameters and must equal, entry by entry in named_parameters() order, the exact derivative of the effective energy / gamma / pi / minus log rotated Born probability (mixed: minus dP/(P+1e-8)). gradient()'s grouping by basis (np.unique, masks, all-Z fast path, 1-D form) is proved with the per-group callees stubbed by opaque per-row terms: any multiset of basis strings, row order and split gives the sum of per-row terms; positive_phase_gradients is that sum over B; compute_exact_gradients is positive phase minus the exact model average. The NLL lemma is discharged end to end for small sizes, and every public gradient method of PositiveWaveFunction must be callable and agree. Additionally (front end G) the reduced effective_energy_gradient of both RBMs equals minus the batch sum of the per-sample derivatives for every size.",
+    "note": "floats as reals; the 1e-8 regulariser is the exact rational of the float; shapes enumerated (quick nv<=2, thorough nv<=3 with all 3^n strings and seeded nv=4 strings for the grouping part); values unbounded; the shape-generic part (front end G) holds for all sizes and values, equalities decided by tensor-algebra normal form (sound, incomplete: a miss is undecided, never a violation without a replayed witness)",
 }
 EXPLANATION = "exact symbolic differentiation (qv.alg.diff) of contract values; offsets from the real module's named_parameters()"
 TRUSTED = ["exact differentiation rules of qv/alg.py (each atom's derivative from its definition)"]
